@@ -1142,6 +1142,13 @@ class OFConnection (object):
         continue
 
       message_length = message[2] << 8 | message[3]
+      if message_length < 8:
+        # Shorter than an OpenFlow header: there is no way to find the start
+        # of the next message, so give up on this connection.
+        self.log.error('Bad OpenFlow message length %s', message_length)
+        io_worker.consume_receive_buf(len(message))
+        self.close()
+        break
       if message_length > len(message):
         break
 
@@ -1156,7 +1163,12 @@ class OFConnection (object):
         io_worker.consume_receive_buf(message_length)
         continue
 
-      new_offset, msg_obj = self.unpackers[ofp_type](message, 0)
+      try:
+        # Only hand the unpacker the bytes the sender says are the message
+        new_offset, msg_obj = unpacker(message[:message_length], 0)
+      except Exception:
+        # Malformed message
+        new_offset, msg_obj = None, None
       if new_offset != message_length:
         info = (msg_obj, message_length, new_offset)
         r = self._error_handler(self.ERR_BAD_LENGTH, info)
